@@ -297,16 +297,60 @@ func gsR1(c *Ctx, g *gossipAnchors, rule string) {
 	}
 }
 
-// freshNodeIDIs: val is a new nodeState whose NodeMetadata.ID is initialised with key.
-func (g *gossipAnchors) freshNodeIDIs(val, key ssa.Value) bool {
-	al, ok := strip(val).(*ssa.Alloc)
-	if !ok {
-		return false
+// freshNodeFields: val is a newly allocated nodeState (directly, or the result
+// of a module constructor whose every return is one); returns the values its
+// ID and Version are initialised with (nil = left at the zero value).
+func (g *gossipAnchors) freshNodeFields(val ssa.Value, depth int) (id, version ssa.Value, ok bool) {
+	val = strip(val)
+	if cl, isCall := val.(*ssa.Call); isCall && depth < 3 {
+		cal := cl.Call.StaticCallee()
+		if cal == nil || !inModule(cal) || len(cal.Blocks) == 0 {
+			return nil, nil, false
+		}
+		rets := returnsOf(cal)
+		if len(rets) != 1 {
+			return nil, nil, false
+		}
+		cid, cver, cok := g.freshNodeFields(returnValues(rets[0])[0], depth+1)
+		if !cok {
+			return nil, nil, false
+		}
+		subst := func(v ssa.Value) ssa.Value {
+			if pv, isP := strip(v).(*ssa.Parameter); isP {
+				for k, pp := range cal.Params {
+					if pp == pv && k < len(cl.Call.Args) {
+						return cl.Call.Args[k]
+					}
+				}
+			}
+			return v
+		}
+		if cid != nil {
+			cid = subst(cid)
+		}
+		if cver != nil {
+			cver = subst(cver)
+		}
+		return cid, cver, true
 	}
-	okID := false
+	al, isAl := val.(*ssa.Alloc)
+	if !isAl {
+		return nil, nil, false
+	}
+	if pt, isP := al.Type().(*types.Pointer); !isP || !types.Identical(pt.Elem(), g.nodeStateT) {
+		return nil, nil, false
+	}
+	visit := func(fv *types.Var, v ssa.Value) {
+		switch fv {
+		case g.idF:
+			id = v
+		case g.versionF:
+			version = v
+		}
+	}
 	for _, r := range *al.Referrers() {
-		fa, ok := r.(*ssa.FieldAddr)
-		if !ok {
+		fa, isFA := r.(*ssa.FieldAddr)
+		if !isFA {
 			continue
 		}
 		if fv, _ := fieldVarOf(fa); fv != g.metaF {
@@ -315,28 +359,30 @@ func (g *gossipAnchors) freshNodeIDIs(val, key ssa.Value) bool {
 		for _, rr := range *fa.Referrers() {
 			switch x := rr.(type) {
 			case *ssa.Store:
-				// *(&new.NodeMetadata) = load(local NodeMetadata complit)
-				if u, ok := x.Val.(*ssa.UnOp); ok {
-					if mal, ok := u.X.(*ssa.Alloc); ok {
+				if u, isU := x.Val.(*ssa.UnOp); isU {
+					if mal, isM := u.X.(*ssa.Alloc); isM {
 						for _, fsx := range fieldStores(mal) {
-							if fsx.f == g.idF && sameValue(fsx.st.Val, key) {
-								okID = true
-							}
+							visit(fsx.f, fsx.st.Val)
 						}
 					}
 				}
 			case *ssa.FieldAddr:
-				if fv, _ := fieldVarOf(x); fv == g.idF {
-					for _, r3 := range *x.Referrers() {
-						if st, ok := r3.(*ssa.Store); ok && sameValue(st.Val, key) {
-							okID = true
-						}
+				fv, _ := fieldVarOf(x)
+				for _, r3 := range *x.Referrers() {
+					if st, isSt := r3.(*ssa.Store); isSt {
+						visit(fv, st.Val)
 					}
 				}
 			}
 		}
 	}
-	return okID
+	return id, version, true
+}
+
+// freshNodeIDIs: val is a new nodeState whose NodeMetadata.ID is initialised with key.
+func (g *gossipAnchors) freshNodeIDIs(val, key ssa.Value) bool {
+	id, _, ok := g.freshNodeFields(val, 0)
+	return ok && id != nil && sameValue(id, key)
 }
 
 func metaRoot(base ssa.Value, g *gossipAnchors) ssa.Value {
@@ -557,6 +603,41 @@ func isEntryFieldLoad(v ssa.Value, ev ssa.Value, f *types.Var) bool {
 func (g *gossipAnchors) idMatches(arg, root ssa.Value) bool {
 	if b, ok := loadedField(arg, g.idF); ok && strip(metaRoot(b, g)) == strip(root) {
 		return true
+	}
+	// helper taking (state, id): the pair must match at every call site
+	if pa, ok := strip(arg).(*ssa.Parameter); ok {
+		if pr, ok := strip(root).(*ssa.Parameter); ok && pa.Parent() == pr.Parent() && g.depth < 3 {
+			fn := pa.Parent()
+			ia, ir := -1, -1
+			for k, pp := range fn.Params {
+				if pp == pa {
+					ia = k
+				}
+				if pp == pr {
+					ir = k
+				}
+			}
+			n := 0
+			for _, caller := range g.p.ModFuncs {
+				if isTestFile(g.p.Fset, caller.Pos()) {
+					continue
+				}
+				for _, in := range findCalls(caller, commonNameOfFn(fn)) {
+					cc := callCommon(in)
+					if cc.StaticCallee() != fn || ia >= len(cc.Args) || ir >= len(cc.Args) {
+						continue
+					}
+					n++
+					g.depth++
+					ok := g.idMatches(cc.Args[ia], cc.Args[ir])
+					g.depth--
+					if !ok {
+						return false
+					}
+				}
+			}
+			return n > 0
+		}
 	}
 	seen := map[ssa.Value]bool{}
 	var rec func(v ssa.Value) bool
